@@ -261,7 +261,7 @@ pub fn setup() -> i32 {
 
 pub fn main(tier: Tier, replay: Option<String>) -> i32 {
     let mut rep = Report::new("C19", "model_checking", tier);
-    rep.rule = "CLI: every file of at most max_lines lines over the bodies {empty, 東京都, 1,000円, あ。い, blank} x terminators {LF, CRLF, none on the last line} x 7 flag sets (default, -a, -w, -m A, -m B -a, --split-sentences=no, -w with no splitting in mode A) is fed to the real `sudachi` binary; stdout must equal the bytes the library + documented format give for each line without its terminator. Python: every call sequence up to `depth` over tokenize(t) / tokenize(t, mode) / tokenize(t, out=L) / m.split(mode[, out=L2]) / lookup(q[, out=L]) / holding a morpheme across list reuse, for four tokenizer configurations (modes, field subset, projection), on the real extension in a sub-process; every result must equal the library's (JSON oracle), text[begin:end] must be the raw surface, a per-call mode must not stick, and the interpreter must exit normally. non-trivial = the file has more than one line / the sequence has more than one call".into();
+    rep.rule = "CLI: every file of at most max_lines lines over the bodies {empty, 東京都, 1,000円, あ。い, blank} x terminators {LF, CRLF, none on the last line} x 7 flag sets (default, -a, -w, -m A, -m B -a, --split-sentences=no, -w with no splitting in mode A) is fed to the real `sudachi` binary; stdout must equal the bytes the library + documented format give for each line without its terminator. Python: every call sequence up to `depth` over tokenize(t) / tokenize(t, mode) / tokenize(t, out=L) / m.split(mode[, out=L2]) / lookup(q[, out=L]) / holding a morpheme across list reuse, for five tokenizer configurations (modes, field subset, projections normalized / reading), on the real extension in a sub-process; every result must equal the library's (JSON oracle), text[begin:end] must be the raw surface, a per-call mode must not stick, and the interpreter must exit normally. non-trivial = the file has more than one line / the sequence has more than one call".into();
     rep.assumptions = vec![
         "the subjects run out of process; enumeration is exhaustive within the bound, the verdict is differential against the in-process library on the same dictionary bytes and configuration".into(),
         "Dictionary.pre_tokenizer needs the `tokenizers` package, which is not installed in this sandbox: that path is not exercised".into(),
@@ -413,7 +413,7 @@ pub fn main(tier: Tier, replay: Option<String>) -> i32 {
     }
     py_samples.push(json!({"texts": texts, "queries": queries, "depth": depth}));
     let first: Vec<(Value, Failure)> = py_fail.into_iter().take(1).collect();
-    rep.add_direct("python/call-sequences", seqs.max(1), seqs.saturating_sub(4 * 27), calls.min(seqs).max(2), py_samples, first, json!({"depth": depth, "operations": 27, "tokenizer_configurations": 4, "api_calls_checked": calls}));
+    rep.add_direct("python/call-sequences", seqs.max(1), seqs.saturating_sub(5 * 27), calls.min(seqs).max(2), py_samples, first, json!({"depth": depth, "operations": 27, "tokenizer_configurations": 5, "api_calls_checked": calls}));
     rep.finish()
 }
 
